@@ -19,6 +19,7 @@ from lib.common import *
 from lib.gen_c import gen_program, Prog
 from lib.oracle import *
 from lib.features import features
+from lib.gentab import run_gentab
 
 LEVEL = 'proof'
 
@@ -48,6 +49,10 @@ def run(ctx):
     if th:
         ctx.proof_stage('Props.C01', th)
     findings = [f for f in ctx.findings if f.get('status') == 'open']
+    # corr-M: the generator's comparison lowering vs Model/GenTables.v, every cell
+    ncell, tab_mism, _ = run_gentab()
+    ctx.cov['correspondence']['corr-M generator comparison tables'] = {'cells': ncell, 'mismatches': len(tab_mism), 'exhaustive': True}
+    ctx.cov['evaluations'] = ncell
     stats = {}
     viol = []
     shrunk_budget = 12 if quick else 120
@@ -94,13 +99,16 @@ def run(ctx):
                              'initial': {kk: vv for kk, vv in ns.items()}})
     agree = sum(st.get('agree', 0) for st in stats.values())
     ctx.cov['programs'] = nprog
-    ctx.cov['evaluations'] = sum(sum(v for k, v in st.items() if not k.startswith('compile-')) for st in stats.values())
+    ctx.cov['evaluations'] += sum(sum(v for k, v in st.items() if not k.startswith('compile-')) for st in stats.values())
     ctx.cov['distinct_nontrivial'] = agree
     ctx.cov['traces_validated_against_impl'] = agree
     ctx.cov['correspondence']['corr-S C semantics vs emitted code'] = stats
     ctx.sample({'program': gen_program(random.Random(ctx.seed), dict()).source()[:800]})
     for v in viol[:3]:
         ctx.violation('c01', v)
+    if tab_mism and not viol:
+        ctx.violation_noinput('Model/GenTables.v no longer matches the generator on %d of %d cells; first: %s'
+                              % (len(tab_mism), ncell, json.dumps(tab_mism[0])[:1500]), 'corr-M:gen_tables')
     ctx.cov['rule'] = ('tools/lib/gen_c.py: globals of char/signed char/short/array/const table, X and Y, arithmetic, bitwise, shifts, '
                        'comparisons, logical operators, ternary, assignment forms, ++/--, if/else, for/while/do, switch with fall-through, '
                        'calls with arguments and results, inline functions; bounded loops; 12 (quick) / 32 (thorough) initial states per '
